@@ -29,7 +29,7 @@ inductive CtxSym where
 deriving Repr, DecidableEq
 
 /-- three-valued evaluation of a source condition; `none` = the model cannot tell -/
-def Cond.eval (atomVal : String → Option Bool) : Cond → Option Bool
+def SrcCond.eval (atomVal : String → Option Bool) : SrcCond → Option Bool
   | .atom s => atomVal s
   | .opaque _ => none
   | .not c => (c.eval atomVal).map (!·)
@@ -46,7 +46,7 @@ def Cond.eval (atomVal : String → Option Bool) : Cond → Option Bool
     | some false, some false => some false
     | _, _ => none
 
-def evalPath (atomVal : String → Option Bool) : List Cond → Option Bool
+def evalPath (atomVal : String → Option Bool) : List SrcCond → Option Bool
   | [] => some true
   | c :: cs =>
     match c.eval atomVal, evalPath atomVal cs with
@@ -123,7 +123,7 @@ def giCtx (clone : Nat) : CtxSym :=
 
 /-! ### gorm.go `Session()` from its body -/
 
-inductive Flag where
+inductive SessFlag where
   | dryRun | prepareStmt | newDB | initialized | skipHooks | skipDefaultTransaction
   | disableNestedTransaction | allowGlobalUpdate | fullSaveAssociations | propagateUnscoped
   | queryFields | hasContext | hasLogger | hasNowFunc | batchSizePos
@@ -132,16 +132,16 @@ deriving Repr, DecidableEq
 /-- the run-time value of a `Session{…}` literal, as far as `Session()` tests it: one Boolean per
     field (`hasContext` = `Context != nil`, `hasLogger` = `Logger != nil`, `hasNowFunc` =
     `NowFunc != nil`, `batchSizePos` = `CreateBatchSize > 0`) -/
-abbrev SessFlags := Flag → Bool
+abbrev SessFlags := SessFlag → Bool
 
-def SessFlags.get (f : SessFlags) (x : Flag) : Bool := f x
+def SessFlags.get (f : SessFlags) (x : SessFlag) : Bool := f x
 
 /-- the flag valuation in which exactly the listed flags are set -/
-def SessFlags.ofList (l : List Flag) : SessFlags := fun f => l.contains f
+def SessFlags.ofList (l : List SessFlag) : SessFlags := fun f => l.contains f
 
 def SessFlags.withCtx (fl : SessFlags) (b : Bool) : SessFlags := fun f => if f = .hasContext then b else fl f
 
-def allFlags : List Flag :=
+def allFlags : List SessFlag :=
   [.dryRun, .prepareStmt, .newDB, .initialized, .skipHooks, .skipDefaultTransaction, .disableNestedTransaction,
    .allowGlobalUpdate, .fullSaveAssociations, .propagateUnscoped, .queryFields, .hasContext, .hasLogger,
    .hasNowFunc, .batchSizePos]
@@ -156,7 +156,7 @@ def knownSessionFields : List (String × String) :=
    ("CreateBatchSize", "int")]
 
 /-- which flag a source atom of `Session()` tests -/
-def sessAtom : String → Option Flag
+def sessAtom : String → Option SessFlag
   | "config.DryRun" => some .dryRun
   | "config.PrepareStmt" => some .prepareStmt
   | "config.NewDB" => some .newDB
@@ -176,14 +176,14 @@ def sessAtom : String → Option Flag
 
 /-- condition with the atoms resolved once (so that evaluating it for all flag values is cheap) -/
 inductive CCond where
-  | flag (f : Flag)
+  | flag (f : SessFlag)
   | unknown
   | not (c : CCond)
   | and (a b : CCond)
   | or (a b : CCond)
 deriving Repr, DecidableEq
 
-def Cond.compile : Cond → CCond
+def SrcCond.compile : SrcCond → CCond
   | .atom s => match sessAtom s with | some f => .flag f | none => .unknown
   | .opaque _ => .unknown
   | .not c => .not c.compile
@@ -240,7 +240,7 @@ def classifySess (s : GStmt) : Option SAct :=
 
 /-- `Session()` reduced to the statements that matter for the context, guards resolved -/
 def sessionProg : List (List CCond × SAct) :=
-  Gen.sessionBody.filterMap (fun s => (classifySess s).map (fun a => (s.path.map Cond.compile, a)))
+  Gen.sessionBody.filterMap (fun s => (classifySess s).map (fun a => (s.path.map SrcCond.compile, a)))
 
 structure SessState where
   stmt : CtxSym := .lost          -- context on tx.Statement
@@ -287,26 +287,26 @@ def SessState.next (st : SessState) : CtxSym := if st.ok then st.getInst.stmt el
 
 /-! ### the finitely many flag valuations that matter -/
 
-def CCond.flags : CCond → List Flag
+def CCond.flags : CCond → List SessFlag
   | .flag f => [f]
   | .unknown => []
   | .not c => c.flags
   | .and a b => a.flags ++ b.flags
   | .or a b => a.flags ++ b.flags
 
-def pathFlags : List CCond → List Flag
+def pathFlags : List CCond → List SessFlag
   | [] => []
   | c :: cs => c.flags ++ pathFlags cs
 
 /-- every flag some guard of the program tests (plus `hasContext`) -/
-def progFlags : List (List CCond × SAct) → List Flag
+def progFlags : List (List CCond × SAct) → List SessFlag
   | [] => [.hasContext]
   | ga :: rest => pathFlags ga.1 ++ progFlags rest
 
 /-- all sub-lists: every way of switching the flags of `l` on or off -/
-def subsets : List Flag → List (List Flag)
+def flagSubsets : List SessFlag → List (List SessFlag)
   | [] => [[]]
-  | f :: fs => subsets fs ++ (subsets fs).map (f :: ·)
+  | f :: fs => flagSubsets fs ++ (flagSubsets fs).map (f :: ·)
 
 /-! ## handles and derivation paths -/
 
